@@ -631,6 +631,27 @@ def build_ret_arity(trees):
                 ar.add(len(v.elts))
             elif isinstance(v, ast.Call) and isinstance(v.func, ast.Attribute) and v.func.attr in known:
                 ar.add(known[v.func.attr])
+            elif isinstance(v, ast.Name) and v.id not in [x.arg for x in fn.args.posonlyargs + fn.args.args + fn.args.kwonlyargs]:
+                # a local bound only to results of such functions / to displays of n elements
+                vals = []
+                okv = True
+                for n, _ins in _fn_nodes(fn):
+                    if isinstance(n, ast.Assign) and any(isinstance(x, ast.Name) and x.id == v.id for t_ in n.targets for x in ast.walk(t_)):
+                        if len(n.targets) == 1 and isinstance(n.targets[0], ast.Name):
+                            vals.append(n.value.value if isinstance(n.value, ast.Await) else n.value)
+                        else:
+                            okv = False
+                    elif isinstance(n, (ast.AugAssign, ast.For, ast.AsyncFor, ast.With, ast.AsyncWith, ast.NamedExpr, ast.comprehension)) and any(isinstance(x, ast.Name) and x.id == v.id and isinstance(x.ctx, ast.Store) for x in ast.walk(n.target if hasattr(n, "target") else n)):
+                        okv = False
+                sizes = set()
+                for e in vals:
+                    if isinstance(e, ast.Tuple) and not any(isinstance(x, ast.Starred) for x in e.elts):
+                        sizes.add(len(e.elts))
+                    elif isinstance(e, ast.Call) and isinstance(e.func, ast.Attribute) and e.func.attr in known:
+                        sizes.add(known[e.func.attr])
+                    else:
+                        sizes.add(None)
+                ar.add(next(iter(sizes)) if okv and vals and len(sizes) == 1 else None)
             else:
                 ar.add(None)
         def never_falls_off(body):
@@ -646,7 +667,7 @@ def build_ret_arity(trees):
             return next(iter(ar))
         return None
     out = {}
-    for _round in range(2):
+    for _round in range(3):
         per = {}
         for t in trees:
             for fn in ast.walk(t):
@@ -873,6 +894,14 @@ def _fold_test(t):
                 same = False if isinstance(other, ast.Constant) or (isinstance(other, ast.Name) and other.id in _CUR_CLEAN_NAMES) else None
             if same is not None:
                 return ast.copy_location(ast.Constant(value=same if isinstance(t.ops[0], ast.Is) else not same), t)
+    if isinstance(t, ast.Compare) and len(t.ops) == 1 and isinstance(t.left, ast.Call) and isinstance(t.left.func, ast.Name) and t.left.func.id == "len" and len(t.left.args) == 1 \
+            and not t.left.keywords and _is_chain(t.left.args[0]) and isinstance(t.comparators[0], ast.Constant) and type(t.comparators[0].value) is int:
+        # `len(x) == 0` is `not x`, `len(x) != 0` / `len(x) > 0` / `len(x) >= 1` is `x`   (a sized container's truth value is its being non-empty)
+        k, op = t.comparators[0].value, t.ops[0]
+        if (k == 0 and isinstance(op, ast.Eq)) or (k == 1 and isinstance(op, ast.Lt)) or (k == 0 and isinstance(op, ast.LtE)):
+            return ast.copy_location(ast.UnaryOp(op=ast.Not(), operand=t.left.args[0]), t)
+        if (k == 0 and isinstance(op, (ast.NotEq, ast.Gt))) or (k == 1 and isinstance(op, ast.GtE)):
+            return t.left.args[0]
     if isinstance(t, ast.Compare) and len(t.ops) == 1 and isinstance(t.ops[0], (ast.Is, ast.IsNot)):
         a, b = t.left, t.comparators[0]
         for x, y in ((a, b), (b, a)):
@@ -1406,7 +1435,7 @@ class FuncCanon(object):
         changed = False
         for blk in _all_blocks(self.fn):
             top = blk is self.fn.body
-            if self.prop(blk) or self.getsetattr(blk) or self.constfold(blk) or self.revdisplay(blk) or self.lencomp(blk) or self.star(blk) or self.callsel(blk) or self.tuplepush(blk) or self.sumloop(blk) or self.listcomp(blk) or self.unroll(blk) or self.listbuild(blk) or self.copyinout(blk) or self.copyin(blk) or self.copyprop(blk) or self.copyback(blk) or self.derived(blk) or self.initsort(blk) or self.lockwith(blk) or self.flagloop(blk) or self.ifflag(blk) or self.flageq(blk) or self.thread(blk) or self.deadstore(blk) or self.kw(blk) or self.split(blk) or self.retsplit(blk) or self.unindex(blk) or self.yieldsplit(blk) or self.forelse(blk) or self.dowhile(blk) or self.withsink(blk) or self.testsplit(blk) or self.rot(blk) or self.brk(blk, top) or self.wtop(blk) or self.ifs(blk) or self.sink(blk) or self.unpack(blk) or self.fwd(blk):
+            if self.prop(blk) or self.getsetattr(blk) or self.constfold(blk) or self.revdisplay(blk) or self.lencomp(blk) or self.star(blk) or self.callsel(blk) or self.tuplepush(blk) or self.sumloop(blk) or self.listcomp(blk) or self.unroll(blk) or self.listbuild(blk) or self.copyinout(blk) or self.copyin(blk) or self.copyprop(blk) or self.augform(blk) or self.copyback(blk) or self.lastof(blk) or self.nonetest(blk) or self.derived(blk) or self.initsort(blk) or self.lockwith(blk) or self.flagloop(blk) or self.ifflag(blk) or self.flageq(blk) or self.thread(blk) or self.deadstore(blk) or self.kw(blk) or self.split(blk) or self.retsplit(blk) or self.unindex(blk) or self.yieldsplit(blk) or self.forelse(blk) or self.dowhile(blk) or self.withsink(blk) or self.testsplit(blk) or self.rot(blk) or self.brk(blk, top) or self.wtop(blk) or self.ifs(blk) or self.sink(blk) or self.unpack(blk) or self.fwd(blk):
                 return True
         return changed
 
@@ -1740,6 +1769,86 @@ class FuncCanon(object):
             i = max(j, i + 1)
         return False
 
+    # -- LASTOF ----------------------------------------------------------------------------------------------------
+    def lastof(self, blk):
+        """`L = []` ; .. `L.append(E)` .. ; `x = L[-1] if L else None`  (nothing else touches L)   ->   `x = None` ; .. `x = E` ..
+        (the last element appended, if any, is the last value assigned)"""
+        for i, st in enumerate(blk):
+            if not (isinstance(st, ast.Assign) and len(st.targets) == 1 and isinstance(st.targets[0], ast.Name) and isinstance(st.value, ast.List) and not st.value.elts):
+                continue
+            L = st.targets[0].id
+            if L in self.params or L in self.captured or len(self.stores.get(L, ())) != 1:
+                continue
+            # the one statement that reads the list as a value
+            use = None
+            for k in range(i + 1, len(blk)):
+                u = blk[k]
+                if isinstance(u, ast.Assign) and len(u.targets) == 1 and isinstance(u.targets[0], ast.Name) and isinstance(u.value, ast.IfExp) and isinstance(u.value.test, ast.Name) and u.value.test.id == L \
+                        and isinstance(u.value.orelse, ast.Constant) and u.value.orelse.value is None and isinstance(u.value.body, ast.Subscript) and isinstance(u.value.body.value, ast.Name) \
+                        and u.value.body.value.id == L and isinstance(u.value.body.slice, ast.UnaryOp) and isinstance(u.value.body.slice.op, ast.USub) \
+                        and isinstance(u.value.body.slice.operand, ast.Constant) and u.value.body.slice.operand.value == 1:
+                    use = k
+                    break
+            if use is None:
+                continue
+            x = blk[use].targets[0].id
+            if x in self.captured or x in self.params or any(isinstance(n, ast.Name) and n.id == x for s_ in blk[i:use] for n in ast.walk(s_)):
+                continue
+            apps = []
+            ok = True
+            use_ids = set(id(n) for n in ast.walk(blk[use]))
+            for n in self.loads.get(L, []):
+                if id(n) in use_ids:
+                    continue
+                loc = self._block_of(n)
+                s_ = loc[0][loc[1]] if loc is not None else None
+                if s_ is not None and isinstance(s_, ast.Expr) and isinstance(s_.value, ast.Call) and isinstance(s_.value.func, ast.Attribute) and s_.value.func.value is n and s_.value.func.attr == "append" \
+                        and len(s_.value.args) == 1 and not s_.value.keywords and not isinstance(s_.value.args[0], ast.Starred) and not any(isinstance(m, ast.Name) and m.id == L for m in ast.walk(s_.value.args[0])):
+                    apps.append(loc)
+                else:
+                    ok = False
+            if not ok or not apps:
+                continue
+            between = set(id(n) for s_ in blk[i + 1:use] for n in ast.walk(s_))
+            if any(not any(id(m) in between for m in ast.walk(b[k])) for b, k in apps):
+                continue
+            for b, k in apps:
+                b[k] = ast.copy_location(ast.Assign(targets=[ast.Name(id=x, ctx=ast.Store())], value=b[k].value.args[0]), b[k])
+                ast.fix_missing_locations(b[k])
+            init = ast.copy_location(ast.Assign(targets=[ast.Name(id=x, ctx=ast.Store())], value=ast.Constant(value=None)), st)
+            ast.fix_missing_locations(init)
+            del blk[use]
+            blk[i] = init
+            self.bump("LASTOF")
+            return True
+        return False
+
+    # -- NONETEST --------------------------------------------------------------------------------------------------
+    def nonetest(self, blk):
+        """`x is None` / `x is not None` / `x == None` / `x != None` in the test of an `if` or `while`, for a local x that is never None where
+        the test stands (its closest binding in the straight-line code above is never None, sa/nullness.py): a literal"""
+        if NULLNESS is None:
+            return False
+        for i, st in enumerate(blk):
+            if not isinstance(st, (ast.If, ast.While)):
+                continue
+            for c in ast.walk(st.test):
+                if isinstance(c, ast.Compare) and len(c.ops) == 1 and isinstance(c.ops[0], (ast.Is, ast.IsNot, ast.Eq, ast.NotEq)) and isinstance(c.left, ast.Name) \
+                        and isinstance(c.comparators[0], ast.Constant) and c.comparators[0].value is None:
+                    x = c.left.id
+                    if x in self.captured or (isinstance(st, ast.While) and any(isinstance(n, ast.Name) and n.id == x and isinstance(n.ctx, (ast.Store, ast.Del)) for s_ in st.body for n in ast.walk(s_))):
+                        continue
+                    pre = self._prefix_to(self.fn.body, blk)
+                    if pre is None:
+                        continue
+                    if self._last_def_nn(x, pre + list(blk[:i])) is not True:
+                        continue
+                    val = isinstance(c.ops[0], (ast.IsNot, ast.NotEq))
+                    _replace_node(st, c, ast.copy_location(ast.Constant(value=val), c))
+                    self.bump("NONETEST")
+                    return True
+        return False
+
     # -- DERIVED ---------------------------------------------------------------------------------------------------
     def derived(self, blk):
         """A local f that is always `f = E` for one call-free expression E over other locals, recomputed right after every binding of those locals:
@@ -1846,9 +1955,43 @@ class FuncCanon(object):
                         break
         return False
 
+    # -- AUGFORM ---------------------------------------------------------------------------------------------------
+    def augform(self, blk):
+        """`v = v + E` -> `v += E` for a local that only ever holds numbers (every binding is an integer literal, `v = v + ..` or `v += ..`)"""
+        for i, st in enumerate(blk):
+            if not (isinstance(st, ast.Assign) and len(st.targets) == 1 and isinstance(st.targets[0], ast.Name) and isinstance(st.value, ast.BinOp) and isinstance(st.value.op, (ast.Add, ast.Sub))
+                    and isinstance(st.value.left, ast.Name) and st.value.left.id == st.targets[0].id):
+                continue
+            v = st.targets[0].id
+            if v in self.params or v in self.captured or any(isinstance(n, (ast.NamedExpr, ast.Lambda)) for n in ast.walk(st.value.right)):
+                continue
+            numeric = True
+            for b in _all_blocks(self.fn):
+                for s_ in b:
+                    if isinstance(s_, ast.Assign) and any(isinstance(n, ast.Name) and n.id == v and isinstance(n.ctx, ast.Store) for t_ in s_.targets for n in ast.walk(t_)):
+                        if not (len(s_.targets) == 1 and isinstance(s_.targets[0], ast.Name)):
+                            numeric = False
+                        elif isinstance(s_.value, ast.Constant) and isinstance(s_.value.value, int) and not isinstance(s_.value.value, bool):
+                            pass
+                        elif isinstance(s_.value, ast.BinOp) and isinstance(s_.value.op, (ast.Add, ast.Sub)) and isinstance(s_.value.left, ast.Name) and s_.value.left.id == v:
+                            pass
+                        else:
+                            numeric = False
+                    elif isinstance(s_, (ast.For, ast.AsyncFor, ast.With, ast.AsyncWith)) and any(isinstance(n, ast.Name) and n.id == v and isinstance(n.ctx, ast.Store) for n in ast.walk(s_.target if isinstance(s_, (ast.For, ast.AsyncFor)) else ast.Module(body=[], type_ignores=[]))):
+                        numeric = False
+            if not numeric or len([x for x in self.stores.get(v, []) if not isinstance(x, ast.Name)]):
+                continue
+            new = ast.copy_location(ast.AugAssign(target=ast.Name(id=v, ctx=ast.Store()), op=st.value.op, value=st.value.right), st)
+            ast.fix_missing_locations(new)
+            blk[i] = new
+            self.bump("AUGFORM")
+            return True
+        return False
+
     # -- COPYPROP --------------------------------------------------------------------------------------------------
     def copyprop(self, blk):
-        """`t = v` for an inliner temporary t bound once, v bound once (or a parameter never re-bound): t is another name for v everywhere."""
+        """`t = v` for an inliner temporary t bound once, v bound once (or a parameter never re-bound): t is another name for v everywhere.
+        Also `t = v` ; `<targets> = E(t)` with every read of t inside E: the right-hand side is evaluated before anything is bound, so it reads v."""
         for a, st in enumerate(blk):
             if not (isinstance(st, ast.Assign) and len(st.targets) == 1 and isinstance(st.targets[0], ast.Name) and isinstance(st.value, ast.Name)):
                 continue
@@ -1857,6 +2000,16 @@ class FuncCanon(object):
                 continue
             if len(self.stores.get(t, ())) != 1 or not isinstance(self.stores[t][0], ast.Name):
                 continue
+            if a + 1 < len(blk) and isinstance(blk[a + 1], (ast.Assign, ast.AugAssign)):
+                nxt = blk[a + 1]
+                inside = set(id(n) for n in ast.walk(nxt.value))
+                tl = self.loads.get(t, [])
+                if tl and all(id(n) in inside for n in tl) and not any(isinstance(n, (ast.Lambda, ast.GeneratorExp, ast.ListComp, ast.SetComp, ast.DictComp, ast.NamedExpr)) for n in ast.walk(nxt.value)):
+                    for n in tl:
+                        n.id = v
+                    del blk[a]
+                    self.bump("COPYPROP")
+                    return True
             nv = len(self.stores.get(v, ()))
             if not ((v in self.params and nv == 0) or (v not in self.params and nv == 1 and isinstance(self.stores[v][0], ast.Name) and v not in self.loop_stored)):
                 continue
@@ -3046,6 +3199,44 @@ class FuncCanon(object):
                         st.value = ast.copy_location(ast.IfExp(test=x.test, body=mk(x.body), orelse=mk(x.orelse)), bo)
                         self.bump("RETSPLIT")
                         return True
+            if isinstance(st, ast.Return) and st.value is not None and not isinstance(st.value, ast.IfExp):
+                # `return F(a if c else b)` / `return F(a if c else b) & K` for builtin F: the conditional is the first thing evaluated  ->  the context
+                # is copied onto both arms
+                path, cur = [], st.value
+                for _d in range(4):
+                    if isinstance(cur, ast.BinOp) and isinstance(cur.right, ast.Constant) and not isinstance(cur.left, ast.Constant):
+                        path.append((cur, "left"))
+                        cur = cur.left
+                    elif isinstance(cur, ast.BinOp) and isinstance(cur.left, ast.Constant):
+                        path.append((cur, "right"))
+                        cur = cur.right
+                    elif isinstance(cur, ast.Call) and isinstance(cur.func, ast.Name) and cur.func.id in PURE_BUILTINS and not self.stores.get(cur.func.id) and cur.func.id not in self.params \
+                            and cur.args and not cur.keywords and not isinstance(cur.args[0], ast.Starred) and all(isinstance(a, ast.Constant) for a in cur.args[1:]):
+                        path.append((cur, "arg0"))
+                        cur = cur.args[0]
+                    else:
+                        break
+                if path and isinstance(cur, ast.IfExp) and any(isinstance(p_[0], ast.Call) for p_ in path):
+                    def rebuild(arm):
+                        e = arm
+                        for node, where in reversed(path):
+                            c2 = copy.copy(node)
+                            if where == "left":
+                                c2.left = e
+                            elif where == "right":
+                                c2.right = e
+                            else:
+                                c2.args = [e] + [copy.deepcopy(a) for a in node.args[1:]]
+                                c2.func = copy.deepcopy(node.func)
+                            e = ast.copy_location(c2, node)
+                        return e
+                    r1 = ast.copy_location(ast.Return(value=rebuild(cur.body)), st)
+                    r2 = ast.copy_location(ast.Return(value=rebuild(copy.deepcopy(cur.orelse))), st)
+                    blk[i:i + 1] = [ast.copy_location(ast.If(test=cur.test, body=[r1], orelse=[]), st), r2]
+                    ast.fix_missing_locations(blk[i])
+                    ast.fix_missing_locations(blk[i + 1])
+                    self.bump("RETSPLIT")
+                    return True
             if isinstance(st, ast.Return) and isinstance(st.value, ast.IfExp):
                 v = st.value
                 r1 = ast.copy_location(ast.Return(value=v.body), st)
@@ -5559,10 +5750,13 @@ def canonicalise(tree, modname, known, stats=None, log=None):
     _inline_module_displays(tree, modname, stats, log)
     _inline_module_scalars(tree, modname, stats, log)
     normalise()
-    inl = Inliner(tree, modname, known, stats, log)
-    inl.run()
-    if stats.get("INLINE"):
-        normalise()
+    for _round in range(3):
+        before = stats.get("INLINE", 0)
+        inl = Inliner(tree, modname, known, stats, log)
+        inl.run()
+        if stats.get("INLINE", 0) == before:
+            break
+        normalise()          # (folding what the inlined arguments decide may open further calls to inlining: one more round)
     ast.fix_missing_locations(tree)
     return stats
 
